@@ -736,6 +736,12 @@ def fam_c18(tier, seed):
         for d2 in (0, 1):
             for s2 in ("A", "B"):
                 sks.append(conv(i, "p", [row(a1), row(a2, sym=s2, day=d2)], variant="perm")); i += 1
+    # newest-first exports with a row that becomes a comment (unknown action, stock split) between dated rows
+    for mid in ("Mystery Action", "Stock Split", "Journal"):
+        for a1 in ("Sell", "Buy", "Cash Dividend"):
+            for a3 in ("Buy", "Sell"):
+                sks.append(conv(i, "m", [row(a1, day=2), row(mid, day=1), row(a3, day=0)], variant="perm")); i += 1
+                sks.append(conv(i, "m", [row(a1, day=30), row(mid, day=30), row(a3, day=0), row(mid, sym="B", day=0)], variant="perm")); i += 1
     # cancel rows: before/after their sell, identical sells, almost identical sells, unmatched
     S, C, B = "Sell", "Cancel Sell", "Buy"
     cancel_sets = [
@@ -750,6 +756,8 @@ def fam_c18(tier, seed):
         [row(B), row(S, day=1), row(C, day=1, same=1), row(C, day=1, same=1)],
         [row(B), row(S, day=1), row(C, day=1, same=1, listed=3)],
         [row(B), row(S, day=1, listed=3), row(C, day=1, same=1)],
+        [row(B), row(S, day=1), row(S, day=1, same=1), row(C, day=1, same=1), row(C, day=1, same=1)],
+        [row(B), row(S, day=1), row(C, day=1, same=1), row(C, day=1, same=1), row(S, day=1, same=1), row(S, day=1, same=1)],
     ]
     for rs in cancel_sets:
         sks.append(conv(i, "c", rs, variant="perm")); i += 1
